@@ -220,36 +220,74 @@ Proof.
   - apply IH; [destruct Hin as [E|Hin]; [inversion E; subst; contradiction|exact Hin]|intros v1 H1; apply Hu; right; exact H1].
 Qed.
 
+Lemma run_writes_single cidx0 s q r :
+  run_writes cidx0 s [(q, r)] =
+  (let '(s1, _, resps) := run_to_response cidx0 8 s [q] in if list_eqb resp_eqb resps [r] then Some s1 else None).
+Proof. reflexivity. Qed.
+
+Lemma list_eqb_resp_eq resps l : list_eqb resp_eqb resps l = true -> resps = l.
+Proof.
+  revert l. induction resps as [|a l0 IH]; intros [|b m]; simpl; try discriminate; auto.
+  intros E. apply andb_true_iff in E. destruct E as [E1 E2]. apply resp_eqb_eq in E1. subst. f_equal. apply IH, E2.
+Qed.
+
+(* the shape of a passing one-create case *)
+Lemma compact_check_single c v rev :
+  cc_writes c = [(RqCreate 0 v, RespCreate rev true)] -> compact_check c = true ->
+  wf_kstateb (cc_d0 c) (cc_init c) = true /\ cc_R c <= cc_d0 c /\
+  exists s1 qu,
+    run_to_response (cc_cidx0 c) 8 (kinit (cc_d0 c) (proxy_store (cc_init c))) [RqCreate 0 v] = (s1, qu, [RespCreate rev true]) /\
+    kstate_eqb (compact_key (cc_R c) (k_idx (cc_init c)) (kv s1 0)) (cc_final c) = true.
+Proof.
+  intros Ew H. unfold compact_check in H. apply andb_true_iff in H. destruct H as [V H].
+  unfold compact_validb in V. apply andb_true_iff in V. destruct V as [V VR]. apply andb_true_iff in V. destruct V as [Vw _].
+  apply N.leb_le in VR. split; [exact Vw|]. split; [exact VR|].
+  rewrite Ew, run_writes_single in H. unfold proxy_store.
+  destruct (run_to_response (cc_cidx0 c) 8 _ [RqCreate 0 v]) as [[s1 qu] resps].
+  destruct (list_eqb resp_eqb resps [RespCreate rev true]) eqn:El; [|discriminate H].
+  apply list_eqb_resp_eq in El. subst resps. exists s1, qu. split; [reflexivity|exact H].
+Qed.
+
 (* the oracle lemma, final-dump half, for the emitted case shape *)
 Theorem compact_final_sound c v rev :
   cc_writes c = [(RqCreate 0 v, RespCreate rev true)] -> compact_check c = true -> compact_final_ok c = true.
 Proof.
-  intros Ew H. unfold compact_final_ok. rewrite Ew. simpl. rewrite andb_true_r.
-  unfold compact_check in H. apply andb_true_iff in H. destruct H as [V H].
-  unfold compact_validb in V. apply andb_true_iff in V. destruct V as [V VR]. apply andb_true_iff in V. destruct V as [Vw _].
-  apply N.leb_le in VR. rewrite Ew in H. cbn [run_writes] in H. fold (proxy_store (cc_init c)) in H.
-  destruct (run_to_response (cc_cidx0 c) 8 (kinit (cc_d0 c) (proxy_store (cc_init c))) [RqCreate 0 v]) as [[s1 qu] resps] eqn:Er.
-  destruct (list_eqb resp_eqb resps [RespCreate rev true]) eqn:El; [|discriminate].
-  assert (Hresps : resps = [RespCreate rev true]).
-  { clear -El. revert El. generalize [RespCreate rev true]. induction resps as [|a l IH]; intros [|b m]; simpl; try discriminate; auto.
-    intros E. apply andb_true_iff in E. destruct E as [E1 E2]. apply resp_eqb_eq in E1. subst. f_equal. apply IH, E2. }
-  subst resps.
-  destruct (run_to_response_P0 (cc_cidx0 c) (RqCreate 0 v) (cinv (cc_d0 c) v)
-              (fun s l Hl Ps => cinv_step (cc_cidx0 c) (cc_d0 c) v s l Hl Ps) 8 _ _ _ _ _ Er) as (P & Rts);
-    [constructor; [reflexivity|constructor]|apply cinv_init, proxy_store_wf, Vw|].
-  simpl in Rts.
-  assert (Hin : exists t, In (EReturn t (RespCreate rev true)) (log s1)) by (apply rets_in; rewrite Rts; left; reflexivity).
-  destruct Hin as [t Hin].
-  destruct (c_ret _ _ _ P t _ rev Hin eq_refl eq_refl) as (Gi & Gin & Gu & Gd).
-  apply kstate_eqb_In in H. destruct H as [Hi Hv]. simpl in Hi.
-  apply andb_true_iff. split.
-  - rewrite <- Hi, Gi. destruct (k_idx (cc_init c)) as [[r f]|]; [destruct f|]; simpl;
-      try destruct (r <=? cc_R c); unfold idx_eqb; simpl; rewrite ?andb_false_r; simpl; rewrite ?N.eqb_refl; reflexivity.
-  - assert (Hkeep : forall v', In (rev, v') (k_vers (cc_final c)) <-> In (rev, v') (k_vers (kv s1 0))).
-    { intros v'. rewrite <- Hv. simpl. rewrite filter_In. unfold collectable. simpl.
-      destruct (N.leb_spec rev (cc_R c)); [lia|]. simpl. tauto. }
-    rewrite (ver_get_unique rev v (k_vers (cc_final c))).
-    + simpl. apply beqb_refl.
-    + apply Hkeep, Gin.
-    + intros v' Hv'. apply Gu. apply Hkeep, Hv'.
+  intros Ew H. destruct (compact_check_single c v rev Ew H) as (Vw & VR & s1 & qu & Er & Hk).
+  assert (Hgoal : opt_eqb idx_eqb (k_idx (cc_final c)) (Some (rev, false)) = true /\
+                  opt_eqb beqb (ver_get rev (k_vers (cc_final c))) (Some v) = true).
+  { destruct (run_to_response_P0 (cc_cidx0 c) (RqCreate 0 v) (cinv (cc_d0 c) v)
+                (fun s l Hl Ps => cinv_step (cc_cidx0 c) (cc_d0 c) v s l Hl Ps) 8 _ _ _ _ _ Er) as (P & Rts);
+      [constructor; [reflexivity|constructor]|apply cinv_init, proxy_store_wf, Vw|].
+    simpl in Rts.
+    assert (Hin : exists t, In (EReturn t (RespCreate rev true)) (log s1)) by (apply rets_in; rewrite Rts; left; reflexivity).
+    destruct Hin as [t Hin].
+    destruct (c_ret _ _ _ P t _ rev Hin eq_refl eq_refl) as (Gi & Gin & Gu & Gd).
+    apply kstate_eqb_In in Hk. destruct Hk as [Hi Hv]. simpl in Hi.
+    split.
+    - assert (Hrefl : opt_eqb idx_eqb (Some (rev, false)) (Some (rev, false)) = true).
+      { unfold opt_eqb, idx_eqb. cbn [fst snd]. rewrite N.eqb_refl. reflexivity. }
+      rewrite <- Hi, Gi. destruct (k_idx (cc_init c)) as [[r f]|]; [destruct f|]; try exact Hrefl.
+      assert (E : opt_eqb idx_eqb (Some (rev, false)) (Some (r, true)) = false).
+      { unfold opt_eqb, idx_eqb. cbn [fst snd]. apply andb_false_r. }
+      rewrite E, andb_false_r. exact Hrefl.
+    - assert (Hkeep : forall v', In (rev, v') (k_vers (cc_final c)) <-> In (rev, v') (k_vers (kv s1 0))).
+      { intros v'. rewrite <- Hv. simpl. rewrite filter_In. unfold collectable. simpl.
+        destruct (N.leb_spec rev (cc_R c)); [lia|]. simpl. tauto. }
+      rewrite (ver_get_unique rev v (k_vers (cc_final c))).
+      + simpl. apply beqb_refl.
+      + apply Hkeep, Gin.
+      + intros v' Hv'. apply Gu. apply Hkeep, Hv'. }
+  destruct Hgoal as [G1 G2]. unfold compact_final_ok. rewrite Ew. cbn [forallb]. rewrite G1, G2. reflexivity.
+Qed.
+
+(* the whole oracle, given that the follow-up probes agree (they are taken after the final dump and are not modelled) *)
+Theorem compact_sound_given_probes c v rev :
+  cc_writes c = [(RqCreate 0 v, RespCreate rev true)] -> compact_check c = true -> compact_probes_ok c = true ->
+  compact_ok c = true.
+Proof.
+  intros Ew H Hp. pose proof (compact_final_sound c v rev Ew H) as Hf.
+  unfold compact_ok, compact_final_ok, compact_probes_ok in *. rewrite Ew in *. cbn [forallb] in *.
+  rewrite andb_true_r in *. apply andb_true_iff in Hf. destruct Hf as [F1 F2].
+  apply andb_true_iff in Hp. destruct Hp as [Hp P3]. apply andb_true_iff in Hp. destruct Hp as [P1 P2].
+  rewrite F1, F2, P1, P2, P3. reflexivity.
 Qed.
